@@ -30,4 +30,19 @@ CLAIMED = {
   "note": "Trusted: reference Vec-based map; xmltok tokenizer.",
   "technique": "model-based stateful property-based testing + small-scope exhaustive enumeration",
  },
+ "C02": {
+  "text": "Generated abstract documents are spelled by a harness-owned lexical renderer (references, CDATA runs, CR/CRLF line ends, literal whitespace in attributes, alias prefixes, interleaved declarations, XML declaration, BOM, encodings) and parsed through every entry point; the tree read back must equal the document the renderer - not xot - says the text denotes, xml_id_node included; parse_fragment is additionally compared with parsing the text wrapped in one element.",
+  "note": "Trusted: the renderer's notion of what a spelling denotes (XML 1.0 line-end / attribute-value normalisation, Namespaces scoping). Attribute/declaration order not compared.",
+  "technique": "property-based testing with generator-owned expected answer (inverse oracle) + metamorphic relation for fragments",
+ },
+ "C03": {
+  "text": "Fault enumeration over a catalogue of 21 well-formedness-breaking edits applied to generated accepted renderings (each edit ill-formed by construction, must be rejected by every applicable entry point), plus token-soup / raw-byte / Unicode garbage through all entry points with a never-panic oracle and a closing-the-loop oracle on everything accepted (C04 invariants, validate_well_formed_document, serialise, reparse, deep_equal).",
+  "note": "Trusted: the applicability predicates of the damage catalogue; constraints outside the statement's list are not asserted. libFuzzer campaigns are an additional thorough-tier driver of the same oracle.",
+  "technique": "property-based fault injection (damage catalogue) + generated garbage fuzzing with round-trip oracle",
+ },
+ "C17": {
+  "text": "The renderer records the byte range of every item it writes; parse_with_span_info / parse_fragment_with_span_info must report exactly those ranges for every element start/end, attribute name/value, text (merged runs), comment and PI target/content, on char boundaries, and the slices must decode to the node values. ParseError spans of damaged inputs must lie inside the source on char boundaries.",
+  "note": "Trusted: the renderer's offset bookkeeping and the span conventions documented in DESIGN.md C17.",
+  "technique": "property-based testing with generator-recorded offsets as oracle + generated faulty inputs for error spans",
+ },
 }
